@@ -373,11 +373,19 @@ def store_case(cfg):
         r = jug_cli([sub] + common + list(extra) + [cfg['jugfile']], cwd)
         obs['steps'].append((sub, r.returncode, r.stdout[-300:]))
         return r
+    # a first look with the cache while nothing is computed yet (creates the cache file of `status --cache`)
+    cli('status', '--cache')
+    import shutil as _sh
+    for k_ in list(find_stores(cwd)):
+        pass
     r = cli('execute')
     obs['after_execute'] = find_stores(cwd)
-    E = cfg['expected']
-    if E is None or not os.path.isdir(os.path.join(cwd, E)):
+    # the store `jug execute` really used (the model's expectation is compared separately): every other command must use the same one
+    used = [k for k, v in obs['after_execute'].items() if v]
+    if len(used) != 1 or obs['after_execute'][used[0]] != 3:
         return obs
+    E = used[0]
+    obs['store_used'] = E
     obs['check_rc'] = cli('check').returncode
     obs['sleep_until_rc'] = 0
     if obs['check_rc'] == 0:        # otherwise it would (rightly, from its point of view) wait for ever
@@ -387,6 +395,10 @@ def store_case(cfg):
         except subprocess.TimeoutExpired:
             obs['sleep_until_rc'] = 'no return within 120 s'
     st = cli('status')
+    # the cached variant, twice (the second call goes through the cache file)
+    stc1 = cli('status', '--cache')
+    stc2 = cli('status', '--cache')
+    obs['status_cached_out'] = [stc1.stdout, stc2.stdout]
     obs['status_out'] = st.stdout
     cnt = cli('count')
     obs['count_out'] = cnt.stdout
@@ -415,7 +427,9 @@ def store_family(run, drv, rng, date, quick):
     cfgs = []
     base = [dict(cli=None, ini=None, override=None), dict(cli='mystore', ini=None, override=None), dict(cli=None, ini='%(jugfile)s.fromrc', override=None),
             dict(cli='cli-%(jugfile)s-d', ini='rc.store', override=None), dict(cli=None, ini=None, override='chosen.by.jugfile'), dict(cli='viacli', ini=None, override='chosen2'),
-            dict(cli=None, ini='%(date)s.rc', override='sub/chosen3')]
+            dict(cli=None, ini='%(date)s.rc', override='sub/chosen3'),
+            # a leading ~ is not special to jug (the shell expands it when it is unquoted): every command must treat it the same way
+            dict(cli=None, ini='~/tilde/%(jugfile)s.st', override=None), dict(cli='~/t2', ini=None, override=None)]
     for i in range(0 if quick else 12):
         t = gen_template(rng, False)
         if t.startswith('-') or '/' in t or t in ('dict_store',) or t.startswith('redis:') or not t.strip():
@@ -445,8 +459,8 @@ def store_family(run, drv, rng, date, quick):
                 if list(ae) != [os.path.normpath(E)] or ae[os.path.normpath(E)] != 3:
                     run.corr_disagreements += 1
                     run.obligation('correspondence model=code (store location)', False, '%s: execute put its results in %s, model says %s; steps %s' % (desc, ae, E, obs['steps'][:1]))
-            if list(ae) != [os.path.normpath(E)] or 'check_rc' not in obs:
-                run.fail('store-location:execute', '%s: `jug execute` stored its results in %s, expected exactly 3 in %r' % (desc, ae, E), rp)
+            if 'store_used' not in obs:
+                run.fail('store-location:execute', '%s: `jug execute` did not put its 3 results into exactly one store: %s (the model expects %r)' % (desc, ae, E), rp)
                 continue
             if obs['check_rc'] != 0:
                 run.fail('store-differs:check', '%s: after a complete `jug execute`, `jug check` exits %s: it looks at a different store' % (desc, obs['check_rc']), rp)
@@ -461,6 +475,12 @@ def store_family(run, drv, rng, date, quick):
             tot = [l.split() for l in obs['status_out'].split('\n') if l.strip().endswith('Total')]
             if not tot or tot[0][:5] != ['0', '0', '0', '3', '0']:
                 run.fail('store-differs:status', '%s: `jug status` after a complete run prints totals %r (failed, waiting, ready, complete, active)' % (desc, tot[:1]), rp)
+            for which, outc in zip(('first', 'second'), obs.get('status_cached_out', [])):
+                totc = [l.split() for l in outc.split('\n') if l.strip().endswith('Total')]
+                if not totc or totc[0][:5] != ['0', '0', '0', '3', '0']:
+                    key = 'K3:status-cache-ignores-set_jugdir' if cfg['override'] else 'store-differs:status-cache'
+                    run.fail(key, '%s: the %s `jug status --cache` after a complete run prints totals %r (failed, waiting, ready, complete, active)' % (desc, which, totc[:1]), rp)
+            E = obs['store_used']
             extra = [k for k in obs['stores_at_end'] if os.path.normpath(k) != os.path.normpath(E)]
             if extra:
                 run.fail('second-store', '%s: the commands created/used other stores besides %r: %s' % (desc, E, extra), rp)
